@@ -160,5 +160,7 @@ func (rr *RFC3597) fromRFC3597(r RR) error {
 	if off != len(msg) {
 		return &Error{err: "bad rdlength"}
 	}
+	// A record read from text has no Rdlength, whichever way it was written (see NewRR).
+	hdr.Rdlength = 0
 	return nil
 }
